@@ -17,7 +17,7 @@ Qed.
 
 Section Loops.
   Variable L : Type.
-  Variable l_pre : L -> N -> L.
+  Variable l_pre : L -> bmeta -> L.
   Variable l_check : L -> tx -> bool.
   Variable l_exec : L -> tx -> xres L.
 
